@@ -1797,7 +1797,7 @@ func init() {
 	extra["c15-portoff-victim"] = c15PortOffVictimMain
 	extra["c15-startstop-victim"] = c15StartStopVictimMain
 	run.Register(&run.Prop{
-		ID: "C15", Level: "fault_enumeration",
+		ID: "C15", PassiveWatchdog: true, Level: "fault_enumeration",
 		Rule: func(tier string) string {
 			return "two parts. (gated, hook H2) a controller parks goroutines at named schedule points and releases them in a chosen order: Restart vs the exiting accept loops for {plain, TLS, both} listeners with each old loop's exit (and its deferred close) placed before Stop returns / after the new listeners are open / concurrently (3, 3 and 9 placements); Stop vs a connection accepted while Stop is between its two phases; Stop vs connection goroutines parked at their exit point; Stop in the middle of a connect storm (16 dialing goroutines, repeated; a connection that answers after Stop returned, or that is still registered at a fixed point, is a violation); Stop while a client whose handler is still running has already gone away by reset or FIN (the reset is known to have arrived when the kernel no longer lists the server-side socket); Stop while 24..64 registered clients hang up by FIN and reset at the same moment (free-running, repeated). What Stop promises is probed whenever Stop returns, with or without an error. Stop while a client of the TLS port has connected but not sent its ClientHello (it must see EOF or a reset within 3 s). Restart while an accepted connection's goroutine is held at its first step (schedule point conn.accepted), before it has registered: the connection must not be served afterwards. A Start that fails in its TLS half (the TLS port is held by another socket) must leave the plain port bindable, and after Stop a new Start must work. A transient Accept failure: every free descriptor of the process is taken, one client per port is left waiting in the listen queue so that Accept fails with EMFILE, the descriptors are released, and every port must serve again. A hard Accept failure: the scenario (Start, six service requests per port, Stop and its postconditions, Start, six requests, Restart, six requests) runs in a victim process under strace fault injection, every second accept4 call failing with one of ENOBUFS, EPROTO, EHOSTUNREACH, EMFILE (thorough: also ENOMEM, EPERM, ENETDOWN, ENFILE, EOPNOTSUPP) - errors the runtime does not mark temporary as well as ones it does; the injections are counted from strace's log. A port switched off in the configuration of the running server (a client's CONFIG SET port 0, the application's SetPort(0) or SetTLSPort(0)) followed by Stop, in a victim process: Stop must return (10 s watchdog; the verdict is structural - Stop parked waiting for the accept loops while a loop is parked in Accept on a listener nobody closed), the ports the server HELD must be free, and with the port switched on again a new Start serves. Two connections from ONE client address and port, one to each listener: two registry entries, the end of one leaves the other registered and served, Stop closes it. Start or Restart immediately followed by Stop, 40 times in a victim process that runs on ONE processor (what a call has started has not run yet when the next begins): when Stop returns no accept-loop goroutine may exist. Postconditions probed after everything is released: dial+PING on every enabled port (twice), bind probe, client-side EOF, Conns() empty, goroutine profile. (histories) ALL call sequences over {Start, Stop, Restart} up to length 4 (quick) / 6 (thorough) x {plain, plain+TLS} with 0..3 clients connecting, idling or disconnecting between calls (and, on the TLS port, clients that a common-name rule refuses after their handshake); after each call the promise of that call is probed, and at quiescent instants len(Conns()) must equal the number of client sockets held open (waiting on the conn.deregistered point, not on time). Start on a running server is tagged start-while-running. A goroutine leak is only reported when the count stays above baseline for the whole grace window; a goroutine parked at its own schedule point after Stop returned is a strict violation. Children are race-detector builds. distinct = scenario/sequence"
 		},
